@@ -250,8 +250,8 @@ def verdict(case, r):
 
 
 # --------------------------------------------------------------------------- generation
-def gen_case(rng: random.Random):
-    engine = rng.choice(["duckdb", "duckdb", "sqlite"])
+def gen_case(rng: random.Random, engine=None):
+    engine = engine or rng.choice(["duckdb", "duckdb", "sqlite"])
     k = rng.choice([1, 2, 2, 3])
     link_type = "dedupe_only" if k == 1 else rng.choice(["link_only", "link_and_dedupe"])
     idtype = rng.choice(["int", "str"])
